@@ -4,6 +4,32 @@ sys.path.insert(0, os.path.join(ROOT, 'checks'))
 sys.path.insert(0, os.path.join(ROOT, 'lib'))
 
 
+def replay(pid, obj):
+    """re-run a recorded counterexample against the CURRENT /repo: exit 1 if it still reproduces, 0 if not, 2 if the
+    record is of a kind that can only be displayed"""
+    for d in ('gen', 'machines', 'sme', 'llir'):
+        sys.path.insert(0, os.path.join(ROOT, d))
+    if obj.get('src') and obj.get('stage') and isinstance(obj.get('violation'), dict):
+        import tv
+        a_, b_ = obj['stage'].split('->')
+        key = {'x86': 'x86', 'aarch64': 'aarch64', 'rv64': 'rv64'}.get(b_, b_)
+        r = tv.stage_item({'name': obj.get('program', 'replay'), 'src': obj['src'], 'pairs': [(a_, key)],
+                           'per_definition': a_ == 'shrunk', 'uniqueness': a_ == 'compiled'})
+        res = r.get('results', {}).get(f"{a_}->{key}", {})
+        still = r.get('status') == 'violation'
+        print(f"replay: {obj.get('program')} {obj['stage']}: status now {r.get('status')}; violations now {res.get('n_violations')}")
+        return 1 if still else 0
+    if obj.get('shape') and (obj.get('isa') or obj.get('item')):
+        import smerun
+        it = obj.get('item') or {'isa': obj['isa'], 'shape': obj['shape'], 'N': obj.get('N', 5), 'classes': None, 'timeout_ms': 120000}
+        r = smerun.run_item(dict(it, classes=None))
+        print(f"replay: {it['isa']} {json.dumps(it['shape'])}: status now {r.get('status')} {r.get('failed') or ''}")
+        return 1 if r.get('status') not in ('ok', 'inconclusive') else 0
+    if 'text' in obj and obj['text']:
+        print('\n'.join(obj['text']) if isinstance(obj['text'], list) else obj['text'])
+    return 2
+
+
 def main():
     args = sys.argv[1:]
     if not args:
@@ -16,10 +42,8 @@ def main():
         path = args[args.index('--replay') + 1]
         with open(path) as f:
             obj = json.load(f)
-        print(json.dumps({k: obj[k] for k in obj if k not in ('text', 'model')}, indent=1)[:4000])
-        if 'text' in obj and obj['text']:
-            print('\n'.join(obj['text']))
-        return 0
+        print(json.dumps({k: obj[k] for k in obj if k not in ('text', 'model', 'src')}, indent=1, default=str)[:3000])
+        return replay(pid, obj)
     import importlib
     table = {
         'C06': ('backend', 'c06'), 'C07': ('backend', 'c07'), 'C08': ('backend', 'c08'),
